@@ -90,7 +90,24 @@ def cases(ctx):
             steps[prefix]["new_session"] = False
             if steps[prefix]["op"] in ("save_merge", "drop_sel", "expand"):
                 steps[prefix]["op"] = "combos"
-        yield {"steps": steps, "engine": engine, "mem_only": mem_only, "unsynced_prefix": prefix, "kind": rng.choice(["float", "multi:s,a3", "int"]),
+        # a parameter first swept over whole numbers and later also at fractional values (a in 1, 2 ... then 0.5, 2.5)
+        if rng.random() < 0.25:
+            for k, st in enumerate(steps):
+                if k > 0 and rng.random() < 0.6:
+                    st["a"] = rng.sample(A_VALS + [0.5, 2.5], len(st["a"]))
+                    if st["op"] == "cases":
+                        st["pts"] = [(rng.choice(A_VALS + [0.5, 2.5]), b) for _, b in st["pts"]]
+                        st["pts"] = list(dict.fromkeys(st["pts"]))
+                    if st["op"] == "drop_sel" and st["dim"] == "a":
+                        st["labels"] = [rng.choice(A_VALS + [0.5, 2.5])]
+        kind = rng.choice(["float", "multi:s,a3", "int", "intfloat", "intfloat"])
+        if kind == "intfloat":
+            # whole numbers first, fractional ones later (and dense little grids, so that no hole keeps the dtype wide)
+            for k, st in enumerate(steps):
+                st["version"] = 0 if k == 0 else rng.choice([0, 1, 1, 2])
+                if rng.random() < 0.5:
+                    st["a"], st["b"] = st["a"][:2], st["b"][:1]
+        yield {"steps": steps, "engine": engine, "mem_only": mem_only, "unsynced_prefix": prefix, "kind": kind,
                "name": rng.choice(["hv", "hv_data", "full.v1"]) + (rng.choice(["", {"h5netcdf": ".h5", "joblib": ".dmp"}[engine]])),
                "extra_const": rng.random() < 0.3}
 
@@ -303,7 +320,12 @@ def run_case(ctx, case):
                         combos["c"] = list(st["c"])
                     pts = [dict(zip(combos, v)) for v in __import__("itertools").product(*combos.values())]
                     if op == "ellipsis" and axes["a"]:
-                        pts = [dict(p, a=a) for a in sorted(axes["a"]) for p in
+                        # Ellipsis means "every value of the coordinate as stored": once a fractional label has been
+                        # harvested the coordinate is a float one, and the function is handed 4.0 where 4 was swept
+                        aco = sorted(axes["a"])
+                        if any(isinstance(x, float) for x in aco):
+                            aco = [float(x) for x in aco]
+                        pts = [dict(p, a=a) for a in aco for p in
                                [dict(zip([k for k in combos if k != "a"], v)) for v in
                                 __import__("itertools").product(*[combos[k] for k in combos if k != "a"])]]
                         combos["a"] = ...
